@@ -149,14 +149,14 @@ PROPS = {
         coq_props=['Properties/C01.v'],
         run_modules=['RunResp.v'],
         harness_cmd='c01',
-        trusted_base=COMMON_TB + ['Conform.v is the SPECIFICATION of a conforming `data` payload and of the permitted differences (CollectFields with visitedFragments, field merging by response key, CompleteValue per type expression; Int = 32-bit, Float as a JSON number, ID as string or 64-bit integer, custom scalars = any non-null JSON); it is written on the raw query AST and shares nothing with the generator model', 'Codegen.v (whole-generator model; RunResp.corr_gen: its items equal the items the real library emitted for every program of the run) and Serde.v (meaning of the emitted items; RunResp.corr_serde: equal to what the compiled consumer crate does on every vector)', 'the harness payload generator mirrors the execution rules; every payload it calls conforming is re-checked by Conform.conforms (checker spec_gen)', 'custom scalars are supplied by the consumer crate as serde_json::Value; JSON numbers are compared textually, so Float payloads are generated in the form serde_json prints (an integral token at a Float position would come back as `3.0`)'],
+        trusted_base=COMMON_TB + ['Conform.v is the SPECIFICATION of a conforming `data` payload and of the permitted differences (CollectFields with visitedFragments, field merging by response key, CompleteValue per type expression; Int = 32-bit, Float as a JSON number, ID as string or 64-bit integer, custom scalars = any non-null JSON); it is written on the raw query AST and shares nothing with the generator model', 'Codegen.v (whole-generator model; RunResp.corr_gen: its items equal the items the real library emitted for every program of the run) and Serde.v (meaning of the emitted items; RunResp.corr_serde: equal to what the compiled consumer crate does on every vector)', 'the harness payload generator mirrors the execution rules; every payload it calls conforming is re-checked by Conform.conforms (checker corr_spec)', 'custom scalars are supplied by the consumer crate as serde_json::Value; JSON numbers are compared textually, so Float payloads are generated in the form serde_json prints (an integral token at a Float position would come back as `3.0`)'],
         assumptions=['programs whose module rustc refuses are not judged here (C02)', "deprecation = deny is excluded: the removed fields are C14's subject"],
     ),
     "C03": dict(
         coq_props=['Properties/C03.v'],
         run_modules=['RunResp.v'],
         harness_cmd='c03',
-        trusted_base=COMMON_TB + ['Conform.v (specification of conforming payloads; a corruption counts only if Conform.conforms says the corrupted payload no longer conforms: checker spec_gen)', 'Codegen.v and Serde.v, tied to the real generator and to rustc+serde on every run (corr_gen, corr_serde)', 'custom scalars are consumer-supplied (serde_json::Value here, which takes null): null is not probed there; Int is i64 in the generated code, so a 64-bit integer at an Int position is not a kind error'],
+        trusted_base=COMMON_TB + ['Conform.v (specification of conforming payloads; a corruption counts only if Conform.conforms says the corrupted payload no longer conforms: checker corr_spec)', 'Codegen.v and Serde.v, tied to the real generator and to rustc+serde on every run (corr_gen, corr_serde)', 'custom scalars are consumer-supplied (serde_json::Value here, which takes null): null is not probed there; Int is i64 in the generated code, so a 64-bit integer at an Int position is not a kind error'],
         assumptions=['programs whose module rustc refuses are not judged here (C02)'],
     ),
     "C04": dict(
